@@ -308,7 +308,20 @@ pub fn run(cases: &[Value], trace: &mut Trace, seed: u64) {
             SENT.fetch_add(1, std::sync::atomic::Ordering::SeqCst);
         }
     })));
+    // every hang verdict costs a third of a second at best: once a process has established a few hundred of them the remaining
+    // cases add nothing (the unchanged tree has none in this engine)
+    let mut nhangs = 0usize;
+    let budget_file = std::env::var("VH_BUDGET_FILE").ok();
     for (kc, case) in cases.iter().enumerate() {
+        if nhangs >= 200 {
+            if let Some(f) = &budget_file {
+                let _ = std::fs::write(f, b"200 hang verdicts in one process\n");
+            }
+            break;
+        }
+        if kc % 64 == 0 && budget_file.as_ref().map(|f| std::path::Path::new(f).exists()).unwrap_or(false) {
+            break;
+        }
         let mut rng = Rng::new(seed ^ (kc as u64).wrapping_mul(0x77_1234_5));
         let mode = case["mode"].as_str().unwrap_or("pair");
         let adapter = case["adapter"].as_str().unwrap_or("mutex");
@@ -427,6 +440,7 @@ pub fn run(cases: &[Value], trace: &mut Trace, seed: u64) {
                             || (t0.elapsed() > Duration::from_millis(2000) && hang_confirmed(t0, &tids, &[s.tx.as_raw_fd()]))
                         {
                             hang = true;
+                            nhangs += 1;
                             let _ = s.tx.shutdown(std::net::Shutdown::Both);
                             if res.is_none() {
                                 res = rx.recv_timeout(Duration::from_millis(3000)).ok();
@@ -544,6 +558,7 @@ pub fn run(cases: &[Value], trace: &mut Trace, seed: u64) {
                         }
                         if t0.elapsed() > Duration::from_millis(2000) && hang_confirmed(t0, &[call_tid.load(std::sync::atomic::Ordering::SeqCst)], &[]) {
                             hang = true;
+                            nhangs += 1;
                             let _ = ps.shutdown(std::net::Shutdown::Both);
                             res = rx.recv_timeout(Duration::from_millis(3000)).ok();
                             break;
